@@ -222,6 +222,11 @@ def _generate_ctls_with_code_map(snapshot, start, end, config, rst_handler, code
     map_reader = get_component('CodeMapReader')
     for address, length in map_reader.read_map(code_map, snapshot, start, end):
         ctls[address] = 'c'
+        if rst_handler:
+            # The argument bytes of a RST instruction at the end of the block
+            # belong to it, though they are never executed
+            i_addr, i_size = list(decode(snapshot, address, address + length, rst_handler))[-1][:2]
+            length = max(length, i_addr + i_size - address)
         if address + length < end:
             ctls[address + length] = 'U'
 
